@@ -119,9 +119,10 @@ def control_doc(rng):
                                                     "Build-Conflicts", "Build-Conflicts-Indep", "Build-Conflicts-Arch", "Build-Conflics-Arch",
                                                     "Recommends", "Suggests", "Enhances", "Pre-Depends", "Breaks", "Conflicts", "Provides"])))
             elif k < 0.65:
-                ups = [rng.choice(["A <a@x>", "B  <b@x>", "Cé <c@x>", "D: <d@x>", ""]) for _ in range(rng.choice([1, 2, 3]))]
+                ups = [rng.choice(["A <a@x>", "B  <b@x>", "Cé <c@x>", "D: <d@x>", "", "#E <e@x>"]) for _ in range(rng.choice([1, 2, 3]))]
                 sep = rng.choice([", ", ",", " ,  ", ",\n "])
-                fields.append("Uploaders:" + rng.choice(["", " "]) + sep.join(ups).lstrip(" ") + "\n")
+                if sep == ",\n ": ups = [u.lstrip("#") for u in ups]       # an indented '#' line is a comment in the input already
+                fields.append("Uploaders:" + rng.choice(["", " "]) + sep.join(ups).lstrip(" ") + rng.choice(["", "", ","]) + "\n")
             elif k < 0.85:
                 fields.append(gen_grammar.field_text(wfield(rng, ["Description", "Section", "Maintainer", "Architecture"])))
             else:
@@ -218,7 +219,11 @@ def control_cases(tier, rng):
     fixed_docs = ["Source: blah\nDepends: foo, bar   (<=  1.0.0)\n\n", "Package: blah\nSection:     libs\n\n\n\nPackage: foo\nDescription: this is a \n      bar\n      blah\n",
                   "Source: s\nBuild-Conflicts-Arch: b ,a\nBuild-Conflics-Arch: b ,a\n", "Source: s\nUploaders: A <a@x>, B: <b@x>,C <c@x>\n",
                   "Package: b\nDepends: a (= 1\n", "Package: b\n\nPackage: a\n# c\nDepends: z, y\n\nSource: s\n", "Source: s\nDepends:\n b,\n a\n",
-                  "Source: s\n# c\nBuild-Depends: b,\n# inner\n a\n", "Source: s\nBuild-Depends: b,\n #inner\n a\n"]
+                  "Source: s\n# c\nBuild-Depends: b,\n# inner\n a\n", "Source: s\nBuild-Depends: b,\n #inner\n a\n",
+                  # audit (cone-c07d): a '#' piece of Uploaders; a value that ends with ','; an unparsable relationship field
+                  "Source: s\nUploaders: A <a@x>, #B <b@x>\n", "Source: s\nUploaders: #A <a@x>, #B, C <c@x>\n",
+                  "Source: s\nUploaders: A <a@x>, B <b@x>,\n", "Source: s\nUploaders: A <a@x>,\n B <b@x>,\nDepends: b, a\n",
+                  "Source: s\nDepends: a (= 1\nBuild-Depends: z,  b\n"]
     for t in fixed_docs + [x for x in EXOTIC if len(x) < 60]:
         for cfg in ["s2:0:-:c:n:c:1", "f:1:79:c:n:c:1", "s4:1:-:c:n:c:1", "s1:0:10:c:n:c:1"]: add(t, cfg)
     for _ in range(n):
